@@ -23,6 +23,9 @@ ROOT = '/repo/src'
 SKIP_FILES = ('xdoctest/_tokenize.py', 'xdoctest/demo.py', 'xdoctest/__init__.py', 'xdoctest/utils/util_deprecation.py', 'xdoctest/utils/util_notebook.py',
               'xdoctest/utils/util_mixins.py', 'xdoctest/utils/util_misc.py', 'xdoctest/utils/util_path.py', 'xdoctest/docstr/docscrape_numpy.py')
 
+# report rendering, colouring and debugging helpers: the content of rendered text is not decided by any property clause
+SKIP_FUNCS = ('GotWantException', 'ExtractGotReprException', '_color', '_print_captured', '__nice__', '__repr__', '__str__', 'cmdline', '_do_a_fancy_diff')
+
 CMP = {ast.Lt: '<=', ast.LtE: '<', ast.Gt: '>=', ast.GtE: '>', ast.Eq: '!=', ast.NotEq: '==', ast.Is: 'is not', ast.IsNot: 'is', ast.In: 'not in', ast.NotIn: 'in'}
 
 
@@ -63,7 +66,7 @@ def mutants_of(relpath, src, want_func):
             if isinstance(child, (ast.FunctionDef, ast.AsyncFunctionDef, ast.ClassDef)):
                 q = (qual + '.' if qual else '') + child.name
             visit(child, q)
-            if not qual or not want_func(relpath, qual):
+            if not qual or not want_func(relpath, qual) or any(sk in qual for sk in SKIP_FUNCS):
                 continue
             if isinstance(child, ast.Expr) and isinstance(child.value, ast.Constant):
                 continue
@@ -154,10 +157,14 @@ _SOURCES = None
 _BASE = None
 
 
-def _init():
-    global _SOURCES, _BASE
+def _init(relevant=None):
+    global _SOURCES, _BASE, _RELEVANT
     _SOURCES = load_tree(ROOT)
     _BASE = Program(_SOURCES, root=ROOT)
+    _RELEVANT = relevant
+
+
+_RELEVANT = None
 
 
 def _analyse(args):
@@ -166,6 +173,8 @@ def _analyse(args):
     sources[relpath] = src
     caught, err2 = [], []
     for prop in CLAIMED:
+        if _RELEVANT is not None and relpath not in _RELEVANT.get(prop, ()):
+            continue
         code, viol, err = selftest.analyse(prop, sources, reuse=_BASE)
         if code == 1:
             caught.append('%s:%s' % (prop, ','.join(sorted({v[0].split('.')[1] for v in viol}))))
@@ -182,15 +191,37 @@ def anchored_functions():
     sources = load_tree(ROOT)
     prog = Program(sources, root=ROOT)
     anchors = set()
+    relevant = {}
     for prop in CLAIMED:
         mod = importlib.import_module('xdstat.rules.%s' % prop.lower())
         rep = Report(prop, 'quick', 0)
-        ctx = Ctx(prog, rep)
+        files = set()
+
+        class RecCtx(Ctx):
+            def func(self, q):
+                fn = Ctx.func(self, q)
+                files.add(fn.module.relpath)
+                return fn
+
+            def cls(self, q):
+                c = Ctx.cls(self, q)
+                files.add(c.module.relpath)
+                return c
+        ctx = RecCtx(prog, rep)
         mod.run(ctx)
+        if prop in ('C11', 'C12', 'C17', 'C05', 'C06'):
+            files |= set(sources)       # these have package-wide who-may / re-call-shape rules
         for o in rep.obligations:
             if o.anchor:
                 anchors.add(o.anchor)
-    return anchors
+            if o.loc and o.loc.startswith('src/'):
+                files.add(o.loc[4:].split(':')[0])
+        # every module a rule of the property built a flow graph or looked a function up in
+        for (qn, _k) in ctx._cfg:
+            fn = prog.func(qn)
+            files.add(fn.module.relpath)
+        relevant[prop] = files
+    return anchors, relevant
 
 
 def main(argv):
@@ -213,7 +244,9 @@ def main(argv):
         elif a == '--all-functions':
             allf = True
     sources = load_tree(ROOT)
-    anchors = anchored_functions() if not allf else None
+    anchors, relevant = anchored_functions()
+    if allf:
+        anchors = None
 
     def modname(relpath):
         return relpath[:-3].replace('/', '.').replace('.__init__', '')
@@ -234,7 +267,7 @@ def main(argv):
     t0 = time.time()
     results = {}
     bykey = {m.key(): m for m in muts}
-    with ProcessPoolExecutor(max_workers=jobs, initializer=_init) as ex:
+    with ProcessPoolExecutor(max_workers=jobs, initializer=_init, initargs=(relevant,)) as ex:
         for i, (key, caught, err2) in enumerate(ex.map(_analyse, [(m.relpath, m.src, m.key()) for m in muts], chunksize=4)):
             results[key] = {'caught': caught, 'exit2': err2}
             if (i + 1) % 200 == 0:
@@ -242,7 +275,9 @@ def main(argv):
     surv = [k for k, r in results.items() if not r['caught'] and not r['exit2']]
     only2 = [k for k, r in results.items() if not r['caught'] and r['exit2']]
     print('caught %d, analysis-error only %d, survived %d  (%.0fs)' % (len(results) - len(surv) - len(only2), len(only2), len(surv), time.time() - t0))
-    json.dump({'results': results, 'survivors': surv, 'exit2_only': only2}, open(out, 'w'), indent=1)
+    json.dump({'results': results, 'survivors': surv, 'exit2_only': only2,
+               'edits': {k: {'relpath': bykey[k].relpath, 'span': list(bykey[k].span), 'new': bykey[k].new, 'func': bykey[k].func, 'lineno': bykey[k].lineno, 'kind': bykey[k].kind, 'old': bykey[k].old} for k in surv}},
+              open(out, 'w'), indent=1)
     byfunc = {}
     for k in surv:
         m = bykey[k]
